@@ -4,6 +4,7 @@ Implement YAML Path.
 
 Copyright 2019, 2020, 2021 William W. Kimball, Jr. MBA MSIS
 """
+import re
 from collections import deque
 from typing import Deque, List, Optional, Union
 
@@ -943,8 +944,8 @@ class YAMLPath:
                     coal_value = SearchTerms(
                         False, PathSearchMethods.REGEX, ".",
                         "^{}.*{}$".format(
-                            segment_id[0:splat_pos],
-                            segment_id[splat_pos + 1:]))
+                            re.escape(segment_id[0:splat_pos]),
+                            re.escape(segment_id[splat_pos + 1:])))
             elif splat_count == 2 and segment_len == 2:
                 # Traversal operator
                 coal_type = PathSegmentTypes.TRAVERSE
@@ -964,7 +965,7 @@ class YAMLPath:
                         search_term += ".*"
                     else:
                         was_splat = False
-                        search_term += char
+                        search_term += re.escape(char)
                 search_term += "$"
 
                 coal_type = PathSegmentTypes.SEARCH
